@@ -54,7 +54,12 @@ class Addr:
         self.ip = maybe_ip_addr(ip)     # IPV4Address instance, or string
 
         if self.ip == '<error>':
-            self._expire()
+            # Tor could not resolve the name: whatever we had is gone
+            if self.expiry is not None and self.expiry.active():
+                self.expiry.cancel()
+            self.expiry = None
+            if self.map.addr.get(self.name, None) is self:
+                self._expire()
             return
 
         fmt = "%Y-%m-%d %H:%M:%S"
@@ -108,6 +113,10 @@ class AddrMap(object):
         params = shlex.split(update)
         if params[0] in self.addr:
             self.addr[params[0]].update(*params)
+
+        elif params[1] == '<error>':
+            # an error for a name we do not know: nothing to remember
+            return
 
         else:
             a = Addr(self)
